@@ -2,10 +2,13 @@ import AlgoVerif.Model.C16
 /-!
 Line-protocol component for C16.
 
-    # case <n> comp=reg sh=<uint32> regs=<kinds>      kinds ∈ {u,s,a,d}*: unordered, stable, sorted asc/desc
+    # case <n> comp=reg sh=<uint32> regs=<kinds>
+        kinds: u unordered, s stable, sorted with comparator a: sign of `a-b` (ascending), d: sign of `b-a` (descending),
+               b: `a-b`, c: `7*(a-b)`, e: `b-a` (comparators whose values are not normalised)
     add i v…  remove i v…  removeall i  contains i v…  size i  isempty i  all i  string i
-    equal i j  subset i j  superset i j  clone d i  cloneempty d i  new d k
-    union d i j…  inter d i j…  diff d i j…  powerset i  partitions i
+    equal i j  subset i j  superset i j  clone d i  cloneempty d i  new d k v…
+    union d i j…  inter d i j…  diff d i j…  powerset i  partitions i  powermut i v  partmut i v
+    anymatch i P  allmatch i P  firstmatch i P  select d i P  partition d e i P     P ∈ ge:<k> lt:<k> odd even
 
 Values are `Int`.  The harness installs (through the verif hook `VerifSetShuffleSource`) a scripted
 `rand.Source` — a 32-bit LCG started at `sh` — behind the package-level `r` of /repo/set, and this file
@@ -54,12 +57,19 @@ def shuffle : Shuffle UInt32 := fun n g =>
 def eqI : EqualFunc Int := fun a b => .ok (a == b)
 def cmpAsc : CompareFunc Int := fun a b => .ok (if a < b then -1 else if a > b then 1 else 0)
 def cmpDesc : CompareFunc Int := fun a b => .ok (if a < b then 1 else if a > b then -1 else 0)
+/-- comparators that return the difference, not its sign -/
+def cmpSub : CompareFunc Int := fun a b => .ok (a - b)
+def cmpSub7 : CompareFunc Int := fun a b => .ok (7 * (a - b))
+def cmpRevSub : CompareFunc Int := fun a b => .ok (b - a)
 
 def implOf : Char → Option (Impl Int)
   | 'u' => some (.unordered eqI)
   | 's' => some (.stable eqI)
   | 'a' => some (.sorted cmpAsc)
   | 'd' => some (.sorted cmpDesc)
+  | 'b' => some (.sorted cmpSub)
+  | 'c' => some (.sorted cmpSub7)
+  | 'e' => some (.sorted cmpRevSub)
   | _ => none
 
 def isUnordered {α} (s : MSet α) : Bool :=
@@ -108,6 +118,15 @@ def parseNats (ws : List String) : Option (List Nat) := ws.mapM parseNat?
 
 def fmtSet (l : List Int) : String := "{" ++ ", ".intercalate (l.map toString) ++ "}"
 
+/-- the predicates of the match operations -/
+def parsePred (w : String) : Option (Int → Bool) :=
+  match w.splitOn ":" with
+  | ["ge", k] => do let k ← parseInt? k; return fun x => decide (k ≤ x)
+  | ["lt", k] => do let k ← parseInt? k; return fun x => decide (x < k)
+  | ["odd"] => some fun x => x % 2 != 0
+  | ["even"] => some fun x => x % 2 == 0
+  | _ => none
+
 def parseOp : List String → Option (Op Int)
   | "add" :: i :: vs => do return .add (← parseNat? i) (← parseInts vs)
   | "remove" :: i :: vs => do return .remove (← parseNat? i) (← parseInts vs)
@@ -129,6 +148,11 @@ def parseOp : List String → Option (Op Int)
   | "union" :: d :: i :: js => do return .union (← parseNat? d) (← parseNat? i) (← parseNats js)
   | "inter" :: d :: i :: js => do return .inter (← parseNat? d) (← parseNat? i) (← parseNats js)
   | "diff" :: d :: i :: js => do return .diff (← parseNat? d) (← parseNat? i) (← parseNats js)
+  | ["anymatch", i, p] => do return .anyMatch (← parseNat? i) (← parsePred p)
+  | ["allmatch", i, p] => do return .allMatch (← parseNat? i) (← parsePred p)
+  | ["firstmatch", i, p] => do return .firstMatch (← parseNat? i) (← parsePred p)
+  | ["select", d, i, p] => do return .select (← parseNat? d) (← parseNat? i) (← parsePred p)
+  | ["partition", d, e, i, p] => do return .partitionM (← parseNat? d) (← parseNat? e) (← parseNat? i) (← parsePred p)
   | _ => none
 
 /-- `All()` of an unordered set is printed in ascending order, of the others as yielded; the result of a
@@ -143,6 +167,9 @@ def showObs (regs : List (MSet Int)) : Op Int → Obs Int → String
       | none => false
     "ok " ++ showIntList (if unordered then isort ltI l else l)
   | _, .elems l => "ok " ++ fmtSet l
+  | _, .opt (some v) => s!"ok some {v}"
+  | _, .opt none => "ok none"
+  | _, .elems2 l₁ l₂ => "ok " ++ fmtSet l₁ ++ " " ++ fmtSet l₂
   | _, .bad => "bad-op"
 
 /-- result line and new state of one op; `none` = malformed op -/
@@ -161,6 +188,22 @@ def step (st : St) (ws : List String) : Option (Outcome (St × String)) :=
     | ["string", i] => do
       let i ← parseNat? i; let s ← st.regs[i]?
       some (.ok (st, "ok " ++ s.string (fun v => toString v)))
+    | "new" :: d :: k :: vs => do
+      -- New(callback, vals...)
+      let d ← parseNat? d; let vs ← parseInts vs
+      let impl ← match k.toList with
+        | [c] => implOf c
+        | _ => none
+      if d < st.regs.length then
+        lift (MSet.newWith impl vs) fun s => some (.ok ({ st with regs := st.regs.set d s }, "ok"))
+      else none
+    | ["powermut", i, _] => do
+      -- Powerset, then the harness edits every member (values cannot alias in the Model): only the size
+      let i ← parseNat? i; let s ← st.regs[i]?
+      lift (s.powerset shuffle st.g) fun (ps, g) => some (.ok ({ st with g := g }, s!"ok {ps.size}"))
+    | ["partmut", i, _] => do
+      let i ← parseNat? i; let s ← st.regs[i]?
+      lift (s.partitions shuffle st.g) fun (ps, g) => some (.ok ({ st with g := g }, s!"ok {ps.size}"))
     | ["powerset", i] => do
       let i ← parseNat? i; let s ← st.regs[i]?
       lift (s.powerset shuffle st.g) fun (ps, g) =>
